@@ -4,6 +4,9 @@ import (
 	"context"
 	"fmt"
 	"math/rand"
+	"strings"
+	"sync"
+	"sync/atomic"
 	"time"
 
 	"github.com/ava-labs/avalanchego/ids"
@@ -21,8 +24,8 @@ func init() {
 	register(&simk.Prop{
 		ID:    "C37",
 		Level: "exploration",
-		Rule: "seeded histories over a network of 3 complete DSMR nodes and a block tree: chunks with seeded expiries are built and certified (real BLS aggregation); blocks are proposed on any processing tip or on the last accepted block either by a node's own BuildBlock or by a faulty proposer that assembles any multiset of known certificates (already referenced by an ancestor on that branch, by a block of another branch, expired at the block timestamp, twice in one block) at seeded timestamps; every node verifies every proposal; a decision picks one verified child of the last accepted block, siblings are dropped, and each node accepts decided blocks at its own pace (a lagging node still walks processing ancestors where an up-to-date node consults its accepted set, including after eviction of expired certificates); " +
-			"oracle: an independent ancestry model — a proposal referencing a chunk twice, a chunk referenced by an ancestor on its own chain, or a chunk whose expiry is before the block timestamp must be rejected by Verify on every node; BuildBlock must never return such a block; over the accepted chain of every node no chunk (hence no transaction) is delivered twice and the executed chunks are exactly the certificates' chunks. non-trivial = >=1 faulty proposal judged and >=1 accept; distinct = history hashes",
+		Rule: "seeded histories over a network of 3 complete DSMR nodes and a block tree: chunks with seeded expiries are built and certified (real BLS aggregation); blocks are proposed on any processing tip or on the last accepted block either by a node's own BuildBlock or by a faulty proposer that assembles any multiset of known certificates (already referenced by an ancestor on that branch, by a block of another branch, expired at the block timestamp, twice in one block) at seeded timestamps; every node verifies every proposal; a decision picks one verified child of the last accepted block, siblings are dropped, and each node accepts decided blocks at its own pace (a lagging node still walks processing ancestors where an up-to-date node consults its accepted set, including after eviction of expired certificates); on one up-to-date node the accept of a decided block runs as a task concurrently with the verification (or the building) of a child that references one of that block's chunks again, interleaved by the seeded scheduler at the validity window's lock and unlock points; " +
+			"oracle: an independent ancestry model — a proposal referencing a chunk twice, a chunk referenced by an ancestor on its own chain, or a chunk whose expiry is before the block timestamp must be rejected by Verify on every node, in every interleaving with a concurrent accept; BuildBlock must never return such a block; over the accepted chain of every node no chunk (hence no transaction) is delivered twice and the executed chunks are exactly the certificates' chunks. non-trivial = >=1 faulty proposal judged and >=1 accept; distinct = history hashes",
 		Exec:        c37,
 		Real:        []string{"x/dsmr.Node (BuildChunk, BuildBlock, Verify, Accept)", "validity window over chunk certificates (internal/validitywindow + emap)", "x/dsmr.ChunkStorage + ChunkVerifier (expiry vs accepted minimum)", "acp118 signature aggregation, certificate gossip, chunk requests over avalanchego's in-memory p2p test network", "BLS signing/verification"},
 		Stub:        []string{"validator set / chain state (static)", "consensus (a global decision per height; per-node accept lag)", "block store of each node (map)", "databases (memdb)"},
@@ -44,12 +47,29 @@ func c37(r *simk.Run) *simk.Violation {
 	s := r.NewSim()
 	s.KeepLog = simk.WantLog()
 	s.Horizon = time.Hour
-	s.Pass = func(string) bool { return true }
+	// scheduling points: only during the concurrent accept-vs-verify/build phases, and only those of the
+	// validity window (the chunk storage holds its own plain lock across the instrumented emap calls, so
+	// a task must never be parked there)
+	var concurrent atomic.Bool
+	s.Pass = func(site string) bool {
+		if !concurrent.Load() {
+			return true
+		}
+		return !(strings.HasPrefix(site, "go:") || strings.HasPrefix(site, "validitywindow.") || strings.HasPrefix(site, "auto.unlock:internal/validitywindow/"))
+	}
 	var viol *simk.Violation
+	var violMu sync.Mutex
 	fail := func(class, f string, a ...any) {
+		violMu.Lock()
+		defer violMu.Unlock()
 		if viol == nil {
 			viol = &simk.Violation{Class: "C37/" + class, Detail: fmt.Sprintf(f, a...)}
 		}
+	}
+	failed := func() bool {
+		violMu.Lock()
+		defer violMu.Unlock()
+		return viol != nil
 	}
 	const nNodes = 3
 	window := []int64{5, 10, 20, 40}[c.Intn(4)]
@@ -229,7 +249,7 @@ func c37(r *simk.Run) *simk.Violation {
 			}
 		}
 
-		for op := 0; op < nOps && viol == nil; op++ {
+		for op := 0; op < nOps && !failed(); op++ {
 			// let certificate gossip and other p2p deliveries of the previous step finish: bubble time
 			// only moves once every goroutine is blocked
 			time.Sleep(time.Millisecond)
@@ -357,13 +377,81 @@ func c37(r *simk.Run) *simk.Violation {
 				lastAccepted = win
 				accepts++
 				note("decide %s", win.name)
+				// on one up-to-date node the accept may run concurrently with the verification (or the
+				// building) of a child that references one of the accepted block's own chunks again: in
+				// every interleaving the child must be rejected (the builder must leave the chunk out)
+				cj := -1
+				if c.Bool(0.5) {
+					for i := range nodes {
+						if len(queue[i]) == 0 && i != lagNode {
+							cj = i
+							break
+						}
+					}
+				}
 				for i := range nodes {
-					queue[i] = append(queue[i], win)
+					if i != cj {
+						queue[i] = append(queue[i], win)
+					}
+				}
+				if cj >= 0 {
+					re := win.blk.ChunkCerts[c.Intn(len(win.blk.ChunkCerts))]
+					ts := win.blk.Timestamp + 1
+					if re.Expiry > ts && c.Bool(0.5) {
+						ts = win.blk.Timestamp + 1 + int64(c.Intn(int(re.Expiry-win.blk.Timestamp)))
+					}
+					build := c.Bool(0.4)
+					child, err := dsmr.VerifNewBlock(dsmr.BlockHeader{ParentID: win.blk.GetID(), Height: win.blk.Height + 1, Timestamp: ts}, []*dsmr.ChunkCertificate{re})
+					if err != nil {
+						fail("harness", "assembling a block: %v", err)
+						return
+					}
+					clause, why := judge(win, ts, child.ChunkCerts)
+					var verr, berr error
+					var built dsmr.Block
+					var aok bool
+					done := make(chan struct{}, 2)
+					concurrent.Store(true)
+					s.Go("c37.accept", uint64(cj), func() {
+						aok = acceptOn(cj, win)
+						done <- struct{}{}
+					})
+					s.Go("c37.child", uint64(cj), func() {
+						if build {
+							built, berr = nodes[cj].Node.BuildBlock(ctx, win.blk, ts)
+						} else {
+							verr = nodes[cj].Node.Verify(ctx, win.blk, child)
+						}
+						done <- struct{}{}
+					})
+					<-done
+					<-done
+					concurrent.Store(false)
+					s.Probe("concurrent_accept_phase")
+					if !aok {
+						return
+					}
+					if build {
+						note("  node %d builds on %s at %d while accepting it: err=%v", cj, win.name, ts, berr)
+						if berr == nil {
+							if cl, wy := judge(win, ts, built.ChunkCerts); cl != "" {
+								fail("builder-produces-"+cl+"-during-accept", "node %d: BuildBlock on parent %s at timestamp %d, running while the node accepts %s, returned a block in which %s; history=%v", cj, win.name, ts, win.name, wy, hist)
+								return
+							}
+						}
+					} else {
+						note("  node %d verifies a child of %s re-referencing %s at %d while accepting it: err=%v", cj, win.name, certName[re.ChunkID], ts, verr)
+						judged++
+						if verr == nil {
+							fail("verify-accepts-"+clause+"-during-accept", "node %d verified a child of %s at timestamp %d while it was accepting %s, although %s; history=%v", cj, win.name, ts, win.name, why, hist)
+							return
+						}
+					}
 				}
 			}
 		}
 		for i := range nodes {
-			if viol != nil || !flush(i, true) {
+			if failed() || !flush(i, true) {
 				return
 			}
 		}
